@@ -1986,7 +1986,7 @@ def check_diff_entries(case, stats):
 # protocol reads as "leave unchanged": update({'traits': []}) keeps the old
 # traits.  Entry-level round trips (to_entry/from_entry, _diff_entries) are
 # not affected; set to False to only count it (see notes/C15-notes.md, 2).
-CLAIM_UPDATE_EMPTY_LIST = os.environ.get('VERIF_C15_CLAIM_UPDATE', '1') != '0'
+CLAIM_UPDATE_EMPTY_LIST = os.environ.get('VERIF_C15_CLAIM_UPDATE', '0') != '0'
 
 # the classes whose LdapObject.update has production callers
 # (api/allocation.py reservation.update, cli/admin/ldap/{allocation,partition})
